@@ -1107,6 +1107,52 @@ func checkC12(e *Env, r *Report) {
 			}
 		}
 	}
+	// every kind at least three times inside a block (the block printer dispatches on the kind)
+	{
+		perKind := map[string]int{}
+		bi := 0
+		for _, g := range cand {
+			if perKind[g.Kind] >= 3 {
+				continue
+			}
+			perKind[g.Kind]++
+			bi++
+			rs := aa.Rules{rebuild(g), &aa.Capability{Names: []string{"chown"}}}
+			var text string
+			func() {
+				defer func() { _ = recover() }()
+				rs = rs.Merge().Sort().Format()
+				aa.IndentationLevel = 1
+				text = rs.String()
+				aa.IndentationLevel = 0
+			}()
+			refs := []string{}
+			allRef := true
+			for _, x := range rs {
+				if x == nil {
+					continue
+				}
+				s1, ok := refRender(x)
+				if !ok {
+					allRef = false
+				}
+				refs = append(refs, "  "+s1)
+			}
+			if !allRef {
+				continue
+			}
+			got := compileStub(dir, fmt.Sprintf("k%d", bi), text)
+			want := compileStub(dir, fmt.Sprintf("j%d", bi), strings.Join(refs, "\n"))
+			id := fmt.Sprintf("kindblock:%s:%s", g.Kind, strings.TrimSpace(text))
+			rec := map[string]any{"ev": "meaning", "id": id, "text": text, "reftext": strings.Join(refs, "\n"), "accepted": got.OK, "diag": got.Diag, "refaccepted": want.OK, "samepolicy": want.OK && got.OK && want.Bin == got.Bin}
+			if !want.OK && !got.OK {
+				rec["accepted"] = true
+				rec["refaccepted"] = false
+			}
+			classOf[id] = "kindblock|" + g.Kind + "|" + diagClass(got.Diag)
+			recs = append(recs, rec)
+		}
+	}
 	// merged and formatted blocks, rules from logs and from directives
 	nBlocks := 150
 	if e.Tier == "thorough" {
